@@ -572,8 +572,13 @@ class MarkdownNormalizer(Renderer):
         link_text = self.render_children(element)
         link_title = _normalize_title_quotes(element.title) if element.title else None
         assert self.root_node
+        # Definitions keep their title as written; compare in normalized form.
         label = next(
-            (k for k, v in self.root_node.link_ref_defs.items() if v == (element.dest, link_title)),
+            (
+                k
+                for k, v in self.root_node.link_ref_defs.items()
+                if (v[0], _normalize_raw_title(v[1]) if v[1] else None) == (element.dest, link_title)
+            ),
             None,
         )
         if label is not None:
